@@ -616,7 +616,10 @@ impl Lab {
                     if infos.is_empty() {
                         "skipped-no-parent".into()
                     } else {
-                        let p = infos.len();
+                        // the parent comes from the model (step field "id" = index of the parent backup); histories that carry
+                        // none use the latest backup
+                        let want = st["id"].as_u64().unwrap_or(0) as usize;
+                        let p = if want >= 1 && want <= infos.len() { want } else { infos.len() };
                         let pid = infos[p - 1].meta.id;
                         match guarded(|| bm.create_incremental_backup(pid, format!("h{bi} step {si}"))) {
                             Ok(m) => {
